@@ -13,8 +13,8 @@ CLAIMS = {
          'for every operand value, flag state, mode, architecture version; frame of dp_sem proved once.',
          'Scope: execute() of the opcode classes with condition passed (C05 covers the failing case) and field ranges as '
          'produced by decode; ADR, MOVT and the decode of operands (C06/C07) are not in these theorems.'),
- 'C02': ('31 single-register load/store classes proved equal to the architecture pseudocode (Spec/LoadStore.v, Spec/LoadStoreUnpriv.v) with MemU / MemU_unpriv instantiated by the emulator (C13/C14): LDR/LDRB/LDRH/LDRSB/LDRSH and STR/STRB/STRH in their immediate and register forms, ARM and Thumb, and the unprivileged LDRT/LDRBT/LDRHT/LDRSBT/LDRSHT/STRT/STRBT/STRHT: address for offset/pre/post-indexed forms modulo 2^32, width, destination value (incl. legacy rotation, zero/sign extension, UNKNOWN = 0 on a misaligned access without unaligned support), base write-back only after a successful access, loads to the PC via LoadWritePC of the loaded word; the memory hypotheses are shown satisfiable on flat maps.',
-         'Partial: doubleword, exclusive and literal forms are covered by the regenerated model and the whole-step correspondence only; register numbers are bounded as the encodings guarantee (Rt <= 14 where a PC destination is UNPREDICTABLE); Hyp mode is excluded for the unprivileged forms (UNPREDICTABLE); operand extraction of the encodings is checked under C06/C07.'),
+ 'C02': ('36 single-register load/store classes proved equal to the architecture pseudocode (Spec/LoadStore.v, Spec/LoadStoreUnpriv.v) with MemU / MemU_unpriv instantiated by the emulator (C13/C14): LDR/LDRB/LDRH/LDRSB/LDRSH and STR/STRB/STRH in their immediate and register forms, ARM and Thumb, the five literal (PC-relative) loads, and the unprivileged LDRT/LDRBT/LDRHT/LDRSBT/LDRSHT/STRT/STRBT/STRHT: address for offset/pre/post-indexed forms modulo 2^32, width, destination value (incl. legacy rotation, zero/sign extension, UNKNOWN = 0 on a misaligned access without unaligned support), base write-back only after a successful access, loads to the PC via LoadWritePC of the loaded word; the memory hypotheses are shown satisfiable on flat maps.',
+         'Partial: doubleword and exclusive forms are covered by the regenerated model and the whole-step correspondence only; register numbers are bounded as the encodings guarantee (Rt <= 14 where a PC destination is UNPREDICTABLE); Hyp mode is excluded for the unprivileged forms (UNPREDICTABLE); operand extraction of the encodings is checked under C06/C07.'),
  'C03': ('LDM/STM in all four addressing modes (IA, DA, DB, IB; ARM and Thumb LDM), PUSH and POP proved equal to the architectural loops by induction over the register list, for every register mask, base, W bit and state: start address and written-back base per mode, lowest register at the lowest address, consecutive words modulo 2^32, PC last, write-back only after all accesses succeeded, UNKNOWN stored for a written-back base that is not lowest (the code\'s lowest-set-bit helper proved equal to the specification\'s on all 65535 non-empty lists); the invariant they need is shown to hold on flat maps.',
          'Partial: the privileged members (user-register and exception-return LDM/STM, SRS, RFE) and the single-register PUSH/POP encodings that use MemU have executable specifications (Spec/BlockFamily.v) compared three-way incl. transfers that abort part-way under the MPU, without theorems; the PUSH;POP round trip is not stated separately.'),
  'C04': ('execute() of B, BL/BLX (immediate), BLX (register), BX, CBZ/CBNZ and the four PC-write primitives proved equal to the architectural operations for every state, offset, register and PC (incl. wrap at 2^32); the offset assembled by every branch encoding proved to be the sign-extended field for every instruction word; PC read value and sequential advance; alignment and link-value consequences.',
